@@ -116,7 +116,9 @@ for side in ("left", "right"):
 DIMS = [
     ("nfiles", [1, 2]),
     ("downsample", [None, 5]),
-    ("motion_filter", [None, (0.5, 30.0)]),
+    # (0.5 m, 30 deg): mostly distance-driven; (100 m, 40 deg): purely
+    # angle-driven on the fixture (every pose is kept by its rotation)
+    ("motion_filter", [None, (0.5, 30.0), (100.0, 40.0)]),
     ("merge", [False, True]),
     ("t_offset", [0.0, 0.125]),
     ("align", ALIGN),
